@@ -38,7 +38,7 @@ def _spec(draw, tier):
     dw = draw(st.sampled_from([4, 8, 8, 16]))
     n = draw(st.one_of(st.integers(0, 2 * dw + 3), st.integers(dw + 1, 2 * dw + 3)))
     if draw(st.integers(0, 11)) == 0:
-        n = draw(st.sampled_from([63, 64, 65, 66, 70, 72, 8 * dw + 1, 9 * dw]))   # > 64 events / > 8 chunks per mask
+        n = draw(st.sampled_from([63, 64, 65, 66, 70, 72, 8 * dw + 1, 9 * dw, 200, 300]))   # > 64 events / > 8 chunks per mask
     return {"n": n, "dw": dw, "al": draw(st.sampled_from([0, 0, 0, 1, 2, 3])),
             "modes": [draw(st.sampled_from(MODES)) for _ in range(n)],
             "trigger": draw(st.sampled_from(MODES)),
@@ -50,6 +50,19 @@ def _spec(draw, tier):
 
 def strategy(tier):
     return gens.with_pre(_spec(tier))
+
+
+def pinned():
+    # a monitor with several hundred events, run outside Hypothesis (which raises the interpreter's
+    # recursion limit while it runs a test): the default limit of a user's interpreter applies
+    out = []
+    for n in (200, 300):
+        out.append((f"wide-{n}", {"n": n, "dw": 8, "al": 0, "modes": [MODES[k % 3] for k in range(n)], "trigger": "level",
+                                  "attach": "connect", "base_sub_aw": 1, "src_bias": 2, "src_hold": 2, "pre": 0,
+                                  "stim": {"kind": "conf", "dseed": 11, "txns": [
+                                      {"reg": 0, "mode": "w", "len": "full", "k": 0, "gap": 1, "inner_gap": 0, "unmapped": "", "pat": "ones"},
+                                      {"reg": 1, "mode": "r", "len": "full", "k": 0, "gap": 1, "inner_gap": 0, "unmapped": "", "pat": "ones"}]}}))
+    return out
 
 
 def check(spec, stats):
